@@ -814,8 +814,21 @@ func genRefl(stream string, seed uint64, n int) []GenCase {
 		objs = append(objs, HV{Kind: "ptr", To: &st}, HV{Kind: "ptr", To: &st2}, HV{Kind: "ptr", To: &st})
 		ss := scripts(append(names, "Missing", "$F0"))
 		ss = append(ss, "F0 = \"shadow\"; return F0;", "return [F0, F1];")
-		for _, s := range ss {
+		// a variable of the same name takes precedence - also after the object has been looked at in this run
+		shadow := []string{"x = F0; F0 = \"shadow\"; return [x, F0];", "x = F1; F0 = \"shadow\"; return [F0, x, F0];",
+			"if (F0 == F0) { F0 = 7; } return F0;", "y = [F0, F1, Missing]; F0 = 1; F1 = 2; Missing = 3; return [F0, F1, Missing, y];",
+			"F0 = F0; F0 = [F0, F0]; return F0;", "x = F1; return [HostV, F0, x, HostV];", "foreach v in [1, 2] { F0 = v; w = F1; } return [F0, w];"}
+		for _, s := range append(ss, shadow...) {
 			c := Case{ID: fmt.Sprintf("%s-%d", stream, id), Script: s, Opt: id%2 == 0, Tags: []string{"reflect"}}
+			if strings.Contains(s, "HostV") {
+				// a host variable that has the name of a field of a later object
+				c.AddVar("HostV", VInt(10))
+				c.AddVar("F1", VStr("host variable F1"))
+				c.Tags = append(c.Tags, "shadow-host-variable")
+			}
+			if inStrs(shadow, s) {
+				c.Tags = append(c.Tags, "shadow-after-lookup")
+			}
 			for _, o := range objs {
 				c.Runs = append(c.Runs, Run{Obj: o, Polls: defaultPolls})
 			}
@@ -957,4 +970,13 @@ func genWfShapes(stream string, seed uint64) []GenCase {
 		add(sb.String(), "long-jumps")
 	}
 	return out
+}
+
+func inStrs(xs []string, x string) bool {
+	for _, y := range xs {
+		if x == y {
+			return true
+		}
+	}
+	return false
 }
